@@ -428,7 +428,7 @@ type counters struct {
 	crashImages atomic.Int64
 }
 
-var alphabet = []string{"aS1", "aS2", "aS3", "aB2", "aF", "rot", "close", "purge2", "purge3", "reopen"}
+var alphabet = []string{"aS0", "aS1", "aS2", "aS3", "aB2", "aF", "rot", "close", "purge2", "purge3", "reopen"}
 
 func main() {
 	prop := flag.String("prop", "C11", "")
@@ -446,7 +446,7 @@ func main() {
 	}
 	defer os.RemoveAll(root)
 	if !vcommon.Thorough() {
-		alphabet = []string{"aS1", "aS2", "aB2", "aF", "rot", "close", "purge2", "purge3", "reopen"}
+		alphabet = []string{"aS0", "aS1", "aS2", "aB2", "aF", "rot", "close", "purge2", "purge3", "reopen"}
 	}
 	// enumerate all sequences up to depth
 	var hists [][]string
@@ -570,7 +570,7 @@ func main() {
 	chk.Set("histories_in_space", len(hists))
 	chk.Set("time_budget_hit", timedOut.Load())
 	chk.Set("exhaustive", chk.Violations() == 0 && !timedOut.Load())
-	chk.Set("rule", "all operation sequences over {append small (epoch 1,2; thorough also 3), append 600 KiB (epoch 2), append of an entry that fails to encode part-way, rotate, close, purge(2), purge(3), reopen} up to the depth, plus three long rotating histories, on the real WriteAheadLog in /dev/shm; All() is compared with the reference list of acknowledged, unpurged entries after every step (set equality, per-file order, purge conservative and complete by directory listing); for every history ending in an append, every byte offset of that append (big entries: quick first/last 32 offsets and 8 evenly spaced; thorough first/last 1024 and every 40009th) is materialised as a torn file, recovered, read, continued (append, reopen, append, purge, reopen) and compared again")
+	chk.Set("rule", "all operation sequences over {append small (epoch 0,1,2; thorough also 3), append 600 KiB (epoch 2), append of an entry that fails to encode part-way, rotate, close, purge(2), purge(3), reopen} up to the depth, plus three long rotating histories, on the real WriteAheadLog in /dev/shm; All() is compared with the reference list of acknowledged, unpurged entries after every step (set equality, per-file order, purge conservative and complete by directory listing); for every history ending in an append, every byte offset of that append (big entries: quick first/last 32 offsets and 8 evenly spaced; thorough first/last 1024 and every 40009th) is materialised as a torn file, recovered, read, continued (append, reopen, append, purge, reopen) and compared again")
 	_ = os.RemoveAll(root)
 	chk.Assume("a crash tears only the final write; directory entries of created files survive; file names (wall clock) are opaque and cross-file order is not asserted")
 	chk.Finish()
